@@ -53,6 +53,12 @@ parsingLoop:
 
 		// Process line.
 		nextChar := i + len(string(char))
+		if char == utf8.RuneError {
+			// For invalid UTF-8, `char` is the replacement character (which would be
+			// 3 bytes wide), whereas the sequence in the text might be shorter.
+			_, size := utf8.DecodeRuneInString(text[i:])
+			nextChar = i + size
+		}
 		currentLine := text[currentLineStart:nextChar]
 		line := NewLineFromString(currentLine)
 
